@@ -342,6 +342,7 @@ func (h *Handler) HandleStreamReset(peerID identity.AgentID, streamID uint64, er
 
 // readLoop reads data from the destination and forwards to the stream.
 func (h *Handler) readLoop(ac *ActiveConnection) {
+	defer verifYield("readLoop.end")
 	defer h.closeConnection(ac.StreamID, ac.RemoteID, nil)
 	defer recovery.RecoverWithLog(h.logger, "exit.readLoop")
 
